@@ -79,6 +79,29 @@ class B64Text:
                     raise Fail('replace on a base64 text with symbolic arguments')
                 return self.remap({args[0].v: args[1].v}) if len(args[0].v) == 1 else self
             return Native(replace, 'b64.replace')
+        if a in ('partition', 'rpartition', 'count', 'find', 'rfind', 'index', 'rindex', 'startswith', 'endswith'):
+            import string as _string
+            b64chars = set(_string.ascii_letters + _string.digits + '+/=-_')
+
+            def foreign(x):
+                return isinstance(x, K) and isinstance(x.v, str) and x.v and not (set(x.v) & b64chars)
+
+            def m(it_, args, kw, n, _a=a):
+                if not (args and foreign(args[0])):
+                    raise Fail(f'{_a} on a base64 text with an argument that may occur in it')
+                # a separator made of characters that base64 text never contains
+                if _a == 'partition':
+                    return ListV([self, K(''), K('')], tup=True)
+                if _a == 'rpartition':
+                    return ListV([K(''), K(''), self], tup=True)
+                if _a == 'count':
+                    return K(0)
+                if _a in ('find', 'rfind'):
+                    return K(-1)
+                if _a in ('startswith', 'endswith'):
+                    return K(False)
+                raise RaiseEx('ValueError', 'substring not found')
+            return Native(m, 'b64.' + a)
         if a in ('strip', 'rstrip', 'lstrip') :
             return Native(lambda it_, args, kw, n: self if not args else (_ for _ in ()).throw(Fail('strip of a base64 text with arguments')), 'b64.strip')
         return None
@@ -114,6 +137,25 @@ def mk_interp(prog, orc=None):
     it.ext_hook = ext_hook
 
     def method_hook(v, name, args, kw, node):
+        if name in ('partition', 'rpartition', 'count') and isinstance(v, Term) and v.op in ('fstr', 'hex') and args and isinstance(args[0], K) \
+                and isinstance(args[0].v, str) and args[0].v and not (set(args[0].v) & set('0123456789abcdefABCDEF')):
+            parts = method_hook(v, 'split', args, kw, node) if v.op == 'fstr' else ListV([v])
+            if parts is None:
+                return None
+            ps, sep = parts.items, args[0]
+
+            def join(xs):
+                out = []
+                for i, x in enumerate(xs):
+                    if i:
+                        out.append(sep)
+                    out += list(x.a) if isinstance(x, Term) and x.op == 'fstr' else [x] if not (isinstance(x, K) and x.v == '') else []
+                return K('') if not out else out[0] if len(out) == 1 else Term('fstr', *out)
+            if name == 'count':
+                return K(len(ps) - 1)
+            if len(ps) == 1:
+                return ListV([v, K(''), K('')] if name == 'partition' else [K(''), K(''), v], tup=True)
+            return ListV([ps[0], sep, join(ps[1:])] if name == 'partition' else [join(ps[:-1]), sep, ps[-1]], tup=True)
         if name == 'split' and isinstance(v, Term) and v.op == 'fstr' and args and isinstance(args[0], K) and isinstance(args[0].v, str):
             sep = args[0].v
             pieces, cur = [], []
